@@ -39,7 +39,7 @@ structure FdRow (K : Type) where
   deltas : List K
   coeffs : List K
   current : K
-  deriving Repr
+  deriving Repr, DecidableEq
 
 def FdRow.map {α β : Type} (c : α → β) (r : FdRow α) : FdRow β :=
   { deltas := r.deltas.map c, coeffs := r.coeffs.map c, current := c r.current }
@@ -127,7 +127,10 @@ def stepVector [Mul K] [Neg K] [OfNat K 0] [LT K] [DecidableLT K] (step minStep 
   v.map (fun x => clampMin minStep (absv x * step))
 
 /-- the step used for the `loc`-th approximation of a variable (`loc_idx` of `_vec_ind_iter`;
-`none` = IndexError) -/
+`none` = IndexError).  Note: for a design variable with `indices`, `loc_idx` counts the *selected*
+entries while the `rel_element` arrays are those of the whole variable, so the k-th selected entry
+is stepped relative to entry `k` (the harness passes `loc` accordingly, and detects a tree where
+the arrays are sliced by the indices). -/
 def stepAt [Add K] [Mul K] [Div K] [Neg K] [OfNat K 0] [LT K] [DecidableLT K] [NatCast K] (sc : StepCalc) (step minStep : K) (v : List K) (nrm : K) (loc : Nat) :
     Option K :=
   match sc with
@@ -379,9 +382,29 @@ def certifyColor (dep : Nat → List Nat) (nrows : Nat) (color : List (Nat × Li
   color.all (fun jn => color.all (fun km =>
     jn.1 == km.1 || jn.2.all (fun r => !(r ∈ km.2))))
 
+/-- every column `< ncols` that some row `< nrows` structurally reads belongs to a color.  A column
+in no color is never perturbed (`_init_approximations` skips every `wrt` whose metadata carries
+`'coloring'`), so its jacobian column stays zero. -/
+def certifyCover (dep : Nat → List Nat) (nrows ncols : Nat)
+    (colors : List (List (Nat × List Nat))) : Bool :=
+  (List.range ncols).all (fun j =>
+    (List.range nrows).all (fun r => !(j ∈ dep r)) ||
+      colors.any (fun col => col.any (fun jn => jn.1 == j)))
+
 end Columns
 
 /-! ## 6. Complex step as a formula -/
+
+/-- entry `r` of one complex-step run perturbing `idxs`: `Im F(x + i h 1_idxs)[r] * (1/h)` for a
+system given over dual numbers -/
+def csPointCol {K : Type} [Add K] [Mul K] [Div K] [OfNat K 0] [OfNat K 1]
+    (F : (Nat → Dual K) → Nat → Dual K) (x : Nat → K) (idxs : List Nat) (h : K) (r : Nat) : K :=
+  (F (iadd (dlift x) idxs ⟨0, h⟩) r).du * (1 / h)
+
+def csColoredEntry {K : Type} [Add K] [Mul K] [Div K] [OfNat K 0] [OfNat K 1]
+    (F : (Nat → Dual K) → Nat → Dual K) (x : Nat → K) (h : K) (js nz : List Nat) (r : Nat) : K :=
+  if r ∈ nz then csPointCol F x js h r else 0
+
 
 /-- `Im f(x + i h e_j) / h` over dual numbers for a polynomial expression -/
 def csApply {K : Type} [Add K] [Mul K] [Neg K] [Div K] [OfNat K 0] [OfNat K 1]
